@@ -470,6 +470,34 @@ func c10Wire(x *hysim.Run, w *wWorld, cl client.Client, f *wConnFactory, clientT
 			}
 		})
 		<-done
+		// second phase (upload only): the application pauses, then has a backlog again. The credit
+		// that accrued while idle must not be released as one unpaced burst.
+		var idleBytes int64
+		idleWin := 300 * time.Millisecond
+		if up && !x.Violated() {
+			time.Sleep(1500 * time.Millisecond)
+			t1 := time.Now()
+			w.fab.OnSend = func(from, to net.Addr, data []byte) {
+				if from.String() == d.from && time.Since(t1) < idleWin {
+					idleBytes += int64(len(data))
+				}
+			}
+			buf := make([]byte, 16384)
+			for time.Since(t1) < 600*time.Millisecond {
+				_ = conn.SetWriteDeadline(time.Now().Add(200 * time.Millisecond))
+				if _, err := conn.Write(buf); err != nil && !isTimeout(err) {
+					break
+				}
+			}
+			r := float64(d.rate)
+			bound := r/0.8*idleWin.Seconds()*1.04 + math.Max(16*1500, 0.010*r/0.8) + 4000
+			x.Ev("wire %s after 1.5 s idle: %d bytes in %v (bound %.0f)", d.name, idleBytes, idleWin, bound)
+			if float64(idleBytes) > bound {
+				x.Violate("wire-rate-exceeded", "%s: after 1.5 s of application idle %d bytes left the sender in %v although the reported fixed rate is %d B/s (bound %.0f incl. burst)", d.name, idleBytes, idleWin, d.rate, bound)
+			} else {
+				x.Probe("wire-rate-after-idle-measured")
+			}
+		}
 		_ = conn.Close()
 		w.fab.OnSend = nil
 		win := (winHi - winLo).Seconds()
